@@ -1,6 +1,411 @@
-(* C03 - phase order and blocking rules.  Statements only. *)
-From UV Require Import Lib.Base Model.Heap Model.Timer Model.LoopCore.
-Example C03_placeholder_model_runs :
-  snd (lrun (linit 0 false) [LInit KIdle true; LStart 0 true; LRun 2] (fun _ => [LStop 0]))
-  = [VRet 0; VRunStart 2; VCb 1 0 0; VAlive true; VRet 0; VPoll 0 false false false false; VRun false].
-Proof. vm_compute. reflexivity. Qed.
+(* C03 - loop iteration phase order and the run-mode blocking rules.
+   Statements only, each closed by [exact] of a lemma proved in Proofs/C03*.v,
+   with Print Assumptions beneath.  Model: Model/LoopCore.v ([iteration],
+   [run_loop], [uv_run], [run_watchers], [io_poll], [callback], [lapi]).
+   Every theorem is for every state [s], every callback behaviour
+   [beh : nat -> list lop] (the k-th callback of a case runs [beh k]), every
+   run mode (0 DEFAULT, 1 ONCE, 2.. NOWAIT) and both settings of the
+   idle-time metric ([metrics s]), unless a hypothesis says otherwise.
+
+   Vocabulary (Proofs/C03Base.v): [cbs evs] are the (tag, handle) pairs of the
+   callback events [VCb tag i _] of a trace in order, [cb_tags] / [cb_ids]
+   their projections; tag 0 timer, 1 idle, 2 prepare, 3 check, 4 async,
+   5 after_work, 6 close.  [ids_of t evs]: the handles called with tag t. *)
+From UV Require Import Lib.Base Model.Heap Model.Timer Model.LoopCore
+  Proofs.TimerProofs Proofs.C03Base Proofs.C03Order Proofs.C03Step Proofs.C03Proofs
+  Proofs.C03Once.
+
+Local Open Scope Z_scope.
+
+(* ------------------------------------------------------------------ *)
+(* 1. phase order                                                     *)
+(* ------------------------------------------------------------------ *)
+
+(* API calls made from a callback never run a callback (no re-entrancy), so a
+   user callback contributes exactly one callback event, its own. *)
+Theorem C03_no_reentrancy :
+  forall (s : lstate) (beh : nat -> list lop) (os : list lop) (tag i : nat),
+  cbs (snd (lapis s os)) = [] /\
+  cbs (snd (callback s beh tag i)) = [(tag, i)].
+Proof. intros s beh os tag i. split; [exact (lapis_no_cb os s)|exact (callback_cbs s beh tag i)]. Qed.
+Print Assumptions C03_no_reentrancy.
+
+(* Within one iteration the callback tags form a word of
+   idle* prepare* (async|after_work)* check* close* timer*. *)
+Theorem C03_phase_order :
+  forall (s : lstate) (beh : nat -> list lop) (mode : nat) (s' : lstate) (evs : list levent),
+  iteration s beh mode = (s', evs) ->
+  exists l1 l2 l3 l4 l5 l6,
+    cb_tags evs = l1 ++ l2 ++ l3 ++ l4 ++ l5 ++ l6 /\
+    Forall (eq 1%nat) l1 /\ Forall (eq 2%nat) l2 /\
+    Forall (fun t => t = 4%nat \/ t = 5%nat) l3 /\
+    Forall (eq 3%nat) l4 /\ Forall (eq 6%nat) l5 /\ Forall (eq 0%nat) l6.
+Proof. exact iteration_phase_order. Qed.
+Print Assumptions C03_phase_order.
+
+(* uv_run: one timer pass (DEFAULT only; [e0] is empty in the other modes),
+   then a sequence of iterations each of which is such a word, then the
+   result event.  [loop_iters] (Proofs/C03Order.v) says more: the traces are
+   those of consecutive [iteration]s, every one but the last ending with the
+   loop alive and stop_flag clear, and mode <> 0 gives exactly one. *)
+Theorem C03_run_phase_order :
+  forall (fuel : nat) (s : lstate) (beh : nat -> list lop) (mode : nat)
+         (s' : lstate) (evs : list levent),
+  uv_run fuel s beh mode = (s', evs) ->
+  exists e0 its r sa sb,
+    evs = e0 ++ concat its ++ [VRun r] /\
+    Forall (eq 0%nat) (cb_tags e0) /\
+    (mode <> 0%nat -> e0 = []) /\
+    uv_start s beh sa /\
+    loop_iters beh mode sa its sb /\
+    Forall phase_word (map cb_tags its) /\
+    s' = set_stop sb false.
+Proof. exact uv_run_trace. Qed.
+Print Assumptions C03_run_phase_order.
+
+(* ------------------------------------------------------------------ *)
+(* 2. once per phase                                                  *)
+(* ------------------------------------------------------------------ *)
+
+(* [QInv s]: the idle/prepare/check queues have no duplicates and hold only
+   active handles of their own kind.  It is preserved by every API call and
+   every callback (and holds in every reachable state:
+   Properties_C03_global.v). *)
+Theorem C03_queue_invariant_api :
+  forall (s : lstate) (o : lop) (beh : nat -> list lop) (tag i : nat),
+  QInv s -> QInv (fst (lapi s o)) /\ QInv (fst (callback s beh tag i)).
+Proof.
+  intros s o beh tag i Q. split; [exact (lapi_QInv s o Q)|exact (callback_QInv s beh tag i Q)].
+Qed.
+Print Assumptions C03_queue_invariant_api.
+
+(* One watcher phase (idle, prepare or check; any kind k): the handles called
+   are pairwise distinct, they are called in queue order (a subsequence of
+   the queue at the start of the phase), and a handle of that queue which is
+   not called was stopped or closed by one of the callbacks of this phase
+   (callbacks are numbered by [cbcount]; callback number [cap] is the
+   harness's wind-down, which closes every handle). *)
+Theorem C03_once_per_phase :
+  forall (s : lstate) (beh : nat -> list lop) (k : hkind) (tag : nat)
+         (s' : lstate) (evs : list levent),
+  QInv s -> run_watchers s beh k tag = (s', evs) ->
+  QInv s' /\
+  NoDup (cb_ids evs) /\
+  subseq (cb_ids evs) (wq_get s k) /\
+  (cbcount s <= cbcount s')%nat /\
+  (forall j, In j (wq_get s k) -> ~ In j (cb_ids evs) ->
+     exists n, (cbcount s <= n < cbcount s')%nat /\
+               (n = cap \/ In (LStop j) (beh n) \/ In (LClose j) (beh n))).
+Proof. exact run_watchers_once. Qed.
+Print Assumptions C03_once_per_phase.
+
+(* ... hence a queued handle that no callback of the phase stops or closes is
+   called exactly once. *)
+Theorem C03_exactly_once :
+  forall (s : lstate) (beh : nat -> list lop) (k : hkind) (tag : nat)
+         (s' : lstate) (evs : list levent) (i : nat),
+  QInv s -> run_watchers s beh k tag = (s', evs) ->
+  In i (wq_get s k) ->
+  (forall n, (cbcount s <= n < cbcount s')%nat ->
+             ~ (n = cap \/ In (LStop i) (beh n) \/ In (LClose i) (beh n))) ->
+  count_occ Nat.eq_dec (cb_ids evs) i = 1%nat.
+Proof. exact run_watchers_exactly_once. Qed.
+Print Assumptions C03_exactly_once.
+
+(* The detached iteration itself: the handle called next is the head of [lq];
+   no API call ever adds to [lq], and only uv_x_stop / uv_close of a handle
+   removes it. *)
+Theorem C03_detached_queue :
+  forall (fuel : nat) (s : lstate) (beh : nat -> list lop) (k : hkind) (tag i : nat)
+         (rest : list nat) (o : lop),
+  (lq s = i :: rest ->
+   exists s3 e1 s4 e2,
+     callback (wq_set (set_lq s rest) k (wq_get (set_lq s rest) k ++ [i])) beh tag i = (s3, e1) /\
+     run_lq fuel s3 beh k tag = (s4, e2) /\
+     run_lq (S fuel) s beh k tag = (s4, e1 ++ e2) /\
+     cb_ids (e1 ++ e2) = i :: cb_ids e2) /\
+  subseq (lq (fst (lapi s o))) (lq s) /\
+  (forall j, In j (lq s) -> ~ In j (lq (fst (lapi s o))) -> o = LStop j \/ o = LClose j).
+Proof.
+  intros fuel s beh k tag i rest o. split; [exact (run_lq_heads fuel s beh k tag i rest)|].
+  split; [exact (lapi_lq_subseq s o)|exact (lapi_lq_removed s o)].
+Qed.
+Print Assumptions C03_detached_queue.
+
+(* One iteration: no idle, prepare or check handle is called twice, and each
+   kind is called in the order of its queue at the start of its phase. *)
+Theorem C03_once_per_iteration :
+  forall (s : lstate) (beh : nat -> list lop) (mode : nat) (s' : lstate) (evs : list levent),
+  QInv s -> iteration s beh mode = (s', evs) ->
+  exists s1 e1 s2 e2 s3 e3,
+    run_watchers s beh KIdle 1 = (s1, e1) /\
+    run_watchers s1 beh KPrepare 2 = (s2, e2) /\
+    io_poll (set_dirty s2 false) beh (poll_timeout s s2 mode) = (s3, e3) /\
+    NoDup (ids_of 1 evs) /\ subseq (ids_of 1 evs) (idle_q s) /\
+    NoDup (ids_of 2 evs) /\ subseq (ids_of 2 evs) (prepare_q s1) /\
+    NoDup (ids_of 3 evs) /\ subseq (ids_of 3 evs) (check_q s3).
+Proof. exact iteration_once. Qed.
+Print Assumptions C03_once_per_iteration.
+
+(* ------------------------------------------------------------------ *)
+(* 3. the blocking rules                                              *)
+(* ------------------------------------------------------------------ *)
+
+(* The poller of an iteration started in state s is called, after the idle
+   and prepare phases have led to s2, with [poll_timeout s s2 mode]. *)
+Theorem C03_poll_site :
+  forall (s : lstate) (beh : nat -> list lop) (mode : nat) (s' : lstate) (evs : list levent),
+  iteration s beh mode = (s', evs) ->
+  exists s1 e1 s2 e2 s3 e3 rest,
+    run_watchers s beh KIdle 1 = (s1, e1) /\
+    run_watchers s1 beh KPrepare 2 = (s2, e2) /\
+    io_poll (set_dirty s2 false) beh (poll_timeout s s2 mode) = (s3, e3) /\
+    evs = e1 ++ e2 ++ e3 ++ rest /\
+    now (ts s2) = now (ts s).
+Proof.
+  intros s beh mode s' evs E.
+  destruct (iteration_phases _ _ _ _ _ E)
+    as (s1 & e1 & s2 & e2 & s3 & e3 & s4 & e4 & s5 & e5 & e6 & H1 & H2 & H3 & _ & _ & _ & ->).
+  exists s1, e1, s2, e2, s3, e3, (e4 ++ e5 ++ e6). repeat split; auto.
+  destruct (iteration_timeout_base _ _ _ _ _ E) as (s1' & e1' & s2' & e2' & G1 & G2 & G3).
+  rewrite H1 in G1. inversion G1; subst s1' e1'. rewrite H2 in G2. inversion G2; subst s2' e2'.
+  exact G3.
+Qed.
+Print Assumptions C03_poll_site.
+
+(* That timeout is 0 in NOWAIT mode, in ONCE mode when an idle handle was
+   queued at the start of the iteration, after uv_stop, while an idle handle is
+   queued, while a close callback is pending, and when nothing referenced is
+   active and no request is outstanding; otherwise it is uv__next_timeout.  It
+   lies in [-1, INT_MAX] and, with a timer armed, does not reach past the
+   nearest timer's due time (counted from loop time). *)
+Theorem C03_poll_timeout :
+  forall (s s2 : lstate) (mode : nat),
+  let zero :=
+    (mode <> 0%nat /\ mode <> 1%nat) \/
+    (mode = 1%nat /\ idle_q s <> []) \/
+    stop_flag s2 = true \/ idle_q s2 <> [] \/ closing s2 <> [] \/
+    (nact s2 <= 0 /\ nreq s2 <= 0) in
+  (zero -> poll_timeout s s2 mode = 0) /\
+  (~ zero -> poll_timeout s s2 mode = next_timeout (ts s2)) /\
+  -1 <= poll_timeout s s2 mode <= int_max /\
+  (forall k, heap_min (hp (ts s2)) = Some k ->
+     now (ts s2) + poll_timeout s s2 mode <= Z.max (now (ts s2)) (k_timeout k)).
+Proof. exact poll_timeout_rules. Qed.
+Print Assumptions C03_poll_timeout.
+
+(* uv_backend_timeout() reports uv__backend_timeout of the current state, or 0
+   while descriptor registrations are waiting; uv__backend_timeout follows
+   the same rules; and it is exactly what the poller is handed in DEFAULT mode
+   (and in ONCE mode when no idle handle was queued). *)
+Theorem C03_backend_timeout_reports :
+  forall (s s0 : lstate) (mode : nat),
+  lapi s LBackendTimeout = (s, [VBt (if io_dirty s then 0 else backend_timeout s)]) /\
+  ((stop_flag s = true \/ idle_q s <> [] \/ closing s <> [] \/ (nact s <= 0 /\ nreq s <= 0)) ->
+     backend_timeout s = 0) /\
+  (~ (stop_flag s = true \/ idle_q s <> [] \/ closing s <> [] \/ (nact s <= 0 /\ nreq s <= 0)) ->
+     backend_timeout s = next_timeout (ts s)) /\
+  (mode = 0%nat \/ (mode = 1%nat /\ idle_q s0 = []) ->
+     poll_timeout s0 s mode = backend_timeout s).
+Proof.
+  intros s s0 mode. split; [exact (backend_timeout_reports s)|].
+  destruct (backend_timeout_rules s) as [A B].
+  split; [exact A|]. split; [exact B|exact (poll_timeout_is_backend s0 s mode)].
+Qed.
+Print Assumptions C03_backend_timeout_reports.
+
+(* ------------------------------------------------------------------ *)
+(* 4. io_poll and the clock                                           *)
+(* ------------------------------------------------------------------ *)
+
+(* [wake s timeout]: the moment the poll returns; loop time afterwards is
+   exactly that.  The poll never blocks longer than asked, not at all when the
+   eventfd is readable or the timeout is 0, and runs nothing unless the
+   eventfd is readable.  (A negative timeout with nothing that could wake the
+   loop is the deadlock the model reports as VHang.) *)
+Theorem C03_io_poll_clock :
+  forall (s : lstate) (beh : nat -> list lop) (timeout : Z) (s' : lstate) (evs : list levent),
+  io_poll s beh timeout = (s', evs) ->
+  now (ts s') = wake s timeout /\
+  (now (ts s) <= clock s -> 0 <= timeout -> clock s <= wake s timeout <= clock s + timeout) /\
+  (efd s = true \/ timeout = 0 -> wake s timeout = clock s) /\
+  (efd s = false -> clock s' = wake s timeout /\ cbcount s' = cbcount s) /\
+  (efd s = false -> timeout < 0 -> stop_flag s' = true /\ In VHang evs) /\
+  clock s <= clock s' /\ now (ts s') <= clock s' /\
+  (now (ts s) <= clock s -> now (ts s) <= now (ts s')).
+Proof. exact io_poll_clock. Qed.
+Print Assumptions C03_io_poll_clock.
+
+(* With the idle-time metric the sleep ends at the deadline the timeout was
+   computed for (loop time + timeout) or at once if the clock is past it;
+   without it the sleep is [timeout] from the clock at the poll. *)
+Theorem C03_io_poll_wake :
+  forall (s : lstate) (timeout : Z),
+  efd s = false -> 0 < timeout ->
+  (metrics s = true -> wake s timeout = Z.max (clock s) (now (ts s) + timeout)) /\
+  (metrics s = false -> wake s timeout = clock s + timeout).
+Proof.
+  intros s timeout He Ht. split; intros Hm;
+    [exact (wake_metrics s timeout He Hm Ht)|exact (wake_plain s timeout He Hm Ht)].
+Qed.
+Print Assumptions C03_io_poll_wake.
+
+(* The timeout shown to epoll_pwait (first field of the VPoll event) is the
+   one handed to io_poll, except with the idle-time metric where it is what
+   remains of it (never more). *)
+Theorem C03_io_poll_event :
+  forall (s : lstate) (beh : nat -> list lop) (timeout : Z),
+  exists t b1 b2 b3 b4 rest,
+    snd (io_poll s beh timeout) = VPoll t b1 b2 b3 b4 :: rest /\
+    (metrics s = false -> t = timeout) /\
+    (t = timeout \/
+     (metrics s = true /\ 0 <= t /\ (now (ts s) <= clock s -> 0 <= timeout -> t <= timeout))).
+Proof. exact io_poll_event. Qed.
+Print Assumptions C03_io_poll_event.
+
+(* The clock invariant "loop time never ahead of the clock" holds initially and
+   is kept by every API call, callback, phase, iteration and run, together
+   with: the clock never goes back, loop time never goes back. *)
+Theorem C03_clock_invariant :
+  forall (beh : nat -> list lop),
+  (forall t0 m, ClockInv (linit t0 m)) /\
+  (forall s o, ClockInv s -> ClockInv (fst (lapi s o)) /\ clock s <= clock (fst (lapi s o))) /\
+  (forall s mode, ClockInv s ->
+     let s' := fst (iteration s beh mode) in
+     ClockInv s' /\ now (ts s) <= now (ts s') /\ clock s <= clock s') /\
+  (forall fuel s mode, ClockInv s ->
+     let s' := fst (uv_run fuel s beh mode) in
+     ClockInv s' /\ now (ts s) <= now (ts s') /\ clock s <= clock s') /\
+  (forall s os, ClockInv s -> ClockInv (fst (lrun s os beh))).
+Proof.
+  intros beh. split; [exact ClockInv_init|]. split.
+  { intros s o CI. destruct (lapi_quiet s o) as (_ & _ & Q3 & _ & Q5).
+    unfold ClockInv in *. split; lia. }
+  split.
+  { intros s mode CI. exact (Step_clock beh s _ (iteration_step beh s mode) CI). }
+  split.
+  { intros fuel s mode CI. destruct (uv_run_time beh fuel s mode CI) as (A & B & C & _).
+    split; [exact A|split; [exact B|exact C]]. }
+  intros s os. exact (lrun_clock beh os s).
+Qed.
+Print Assumptions C03_clock_invariant.
+
+(* ------------------------------------------------------------------ *)
+(* 5. uv_stop                                                         *)
+(* ------------------------------------------------------------------ *)
+
+(* uv_run always returns with stop_flag clear. *)
+Theorem C03_stop_forgotten :
+  forall (fuel : nat) (s : lstate) (beh : nat -> list lop) (mode : nat),
+  stop_flag (fst (uv_run fuel s beh mode)) = false.
+Proof. exact uv_run_clears_stop. Qed.
+Print Assumptions C03_stop_forgotten.
+
+(* Inside an iteration stop_flag is sticky, and a callback (number n) that
+   calls uv_stop sets it; when it is set at the end of a DEFAULT iteration the
+   loop returns after that iteration.  ONCE/NOWAIT run exactly one iteration. *)
+Theorem C03_stop :
+  forall (fuel : nat) (s : lstate) (beh : nat -> list lop) (mode : nat)
+         (s1 : lstate) (e1 : list levent),
+  iteration s beh mode = (s1, e1) ->
+  (stop_flag s = true -> stop_flag s1 = true) /\
+  (forall n, (cbcount s <= n < cbcount s1)%nat -> (n < cap)%nat ->
+             In LStopLoop (beh n) -> stop_flag s1 = true) /\
+  (mode = 0%nat -> stop_flag s1 = true ->
+     run_loop (S fuel) s beh 0 = (s1, e1, loop_alive s1)) /\
+  (mode <> 0%nat -> run_loop (S fuel) s beh mode = (s1, e1, loop_alive s1)).
+Proof.
+  intros fuel s beh mode s1 e1 E.
+  destruct (iteration_stop_sticky _ _ _ _ _ E) as [A B].
+  split; [exact A|]. split; [exact B|]. split.
+  - intros -> Hs. exact (run_loop_stop_returns fuel s beh s1 e1 E Hs).
+  - intros Hm. exact (run_loop_once fuel s beh mode s1 e1 Hm E).
+Qed.
+Print Assumptions C03_stop.
+
+(* uv_stop before uv_run: no iteration at all, and the request is consumed. *)
+Theorem C03_stop_before_run :
+  forall (fuel : nat) (s : lstate) (beh : nat -> list lop) (mode : nat),
+  stop_flag s = true ->
+  uv_run fuel s beh mode =
+  (set_stop (if loop_alive s then s else update_time s) false, [VRun (loop_alive s)]).
+Proof. exact uv_run_stopped. Qed.
+Print Assumptions C03_stop_before_run.
+
+(* The next uv_run is unaffected: with the flag clear (as every uv_run leaves
+   it) an alive loop enters its first iteration (after the timer pass in
+   DEFAULT mode, unless a timer callback calls uv_stop). *)
+Theorem C03_next_run_normal :
+  forall (fuel : nat) (s : lstate) (beh : nat -> list lop) (mode : nat)
+         (s' : lstate) (evs : list levent),
+  stop_flag s = false -> loop_alive s = true ->
+  uv_run (S fuel) s beh mode = (s', evs) ->
+  (mode <> 0%nat ->
+     exists s1 e1, iteration s beh mode = (s1, e1) /\
+                   s' = set_stop s1 false /\ evs = e1 ++ [VRun (loop_alive s1)]) /\
+  (mode = 0%nat ->
+     exists st e0, l_run_timers (update_time s) beh = (st, e0) /\
+       (stop_flag st = true -> s' = set_stop st false /\ evs = e0 ++ [VRun true]) /\
+       (stop_flag st = false ->
+          exists s1 e1 rest, iteration st beh 0 = (s1, e1) /\ evs = e0 ++ e1 ++ rest)).
+Proof.
+  intros fuel s beh mode s' evs Hs Ha E. split.
+  - intros Hm. exact (uv_run_enters fuel s beh mode s' evs Hs Ha Hm E).
+  - intros ->. exact (uv_run_enters_default fuel s beh s' evs Hs Ha E).
+Qed.
+Print Assumptions C03_next_run_normal.
+
+(* ------------------------------------------------------------------ *)
+(* Examples: the hypotheses are satisfiable, the statements are not    *)
+(* vacuous.                                                           *)
+(* ------------------------------------------------------------------ *)
+Definition ex_script : list lop :=
+  [LInit KTimer false; LInit KIdle false; LInit KPrepare false; LInit KCheck false;
+   LInit KAsync true; LInit KIdle false; LInit KIdle false;
+   LTStart 0 (Some 0%nat) 0 0; LStart 1 true; LStart 6 true; LStart 2 true; LStart 3 true;
+   LSend 4; LWork true; LClose 5].
+Definition ex_beh (n : nat) : list lop :=
+  match n with
+  | 0%nat => [LStop 1]            (* the first idle callback stops the other idle handle *)
+  | 1%nat => [LBackendTimeout]    (* the prepare callback samples uv_backend_timeout() *)
+  | _ => []
+  end.
+Definition ex_state : lstate := fst (lrun (linit 100 false) ex_script ex_beh).
+
+(* all six phases populated, in one ONCE iteration; idle handle 1 was queued
+   but is stopped by the callback of idle handle 6 before its turn *)
+Example C03_ex_all_phases :
+  (idle_q ex_state, prepare_q ex_state, check_q ex_state, closing ex_state)
+    = ([6; 1], [2], [3], [5])%nat /\
+  cbs (snd (iteration ex_state ex_beh 1))
+    = [(1, 6); (2, 2); (5, 0); (4, 4); (3, 3); (6, 5); (0, 0)]%nat.
+Proof. vm_compute. split; reflexivity. Qed.
+
+(* a DEFAULT iteration with a timer due in 50 ms and nothing else: the poller
+   is handed 50.  A prepare callback that spends 30 ms makes the plain poll
+   sleep until 180 = clock + 50, i.e. 30 ms past the due time 150 (the timeout
+   is counted from the loop time of the iteration's start), while with the
+   idle-time metric the poll is given the remaining 20 and wakes at 150. *)
+Definition ex2_script : list lop :=
+  [LInit KTimer false; LInit KPrepare false; LTStart 0 (Some 0%nat) 50 0; LStart 1 true].
+Definition ex2_beh (n : nat) : list lop :=
+  match n with 0%nat => [LAdv 30] | _ => [LClose 0; LClose 1] end.
+Example C03_ex_timeout :
+  snd (iteration (fst (lrun (linit 100 false) ex2_script ex2_beh)) ex2_beh 0)
+  = [VCb 2 1 100; VAlive true; VPoll 50 false false false true; VCb 0 0 180; VAlive true] /\
+  snd (iteration (fst (lrun (linit 100 true) ex2_script ex2_beh)) ex2_beh 0)
+  = [VCb 2 1 100; VAlive true; VPoll 20 false false false true; VCb 0 0 150; VAlive true].
+Proof. vm_compute. split; reflexivity. Qed.
+
+(* uv_stop from the check callback of the second DEFAULT iteration (callback
+   number 3): the run ends with that iteration, the flag is clear afterwards
+   and a following ONCE run does its iteration normally *)
+Definition ex3_script : list lop :=
+  [LInit KIdle false; LInit KCheck false; LStart 0 true; LStart 1 true].
+Definition ex3_beh (n : nat) : list lop := match n with 3%nat => [LStopLoop] | _ => [] end.
+Definition ex3_state : lstate := fst (lrun (linit 0 false) ex3_script ex3_beh).
+Example C03_ex_stop :
+  cbs (snd (uv_run 10 ex3_state ex3_beh 0)) = [(1, 0); (3, 1); (1, 0); (3, 1)]%nat /\
+  stop_flag (fst (uv_run 10 ex3_state ex3_beh 0)) = false /\
+  cbs (snd (uv_run 1 (fst (uv_run 10 ex3_state ex3_beh 0)) ex3_beh 1)) = [(1, 0); (3, 1)]%nat.
+Proof. vm_compute. repeat split; reflexivity. Qed.
